@@ -305,10 +305,10 @@ func main() {
 		"computeConsumedCapacity (request policy) = consumed_capacity/violates_policy",
 	}
 	nM, nN, nS, nT := 400, 450, 210, 200
-	nA, nB, nP := 150, 150, 200
+	nA, nB, nP, nD := 150, 150, 200, 60
 	if c.Thorough() {
 		nM, nN, nS, nT = 2000, 2500, 900, 1000
-		nA, nB, nP = 500, 500, 800
+		nA, nB, nP, nD = 500, 500, 800, 300
 	}
 	for i := 0; i < nM; i++ {
 		runM(c, c.Rand.Fork(), nil)
@@ -330,6 +330,9 @@ func main() {
 	}
 	for i := 0; i < nP; i++ {
 		runP(c, c.Rand.Fork(), i)
+	}
+	for i := 0; i < nD; i++ {
+		runD(c, c.Rand.Fork(), i)
 	}
 	c.Meta.Extra = map[string]interface{}{
 		"assumptions": []string{
